@@ -27,18 +27,16 @@ def guardKind (c : Cfg) (s : Impl) (op : Op) : String :=
     match op with
     | .createAccount _ => if s.guard c op then "ok" else "s8-create-over-storage"
     | .addBalance _ _ => if s.guard c op then "ok" else "ripemd-touch"
-    | .addSlotToAccessList _ _ => if s.guard c op then "ok" else "slot-without-address"
     | .prepare _ => if s.guard c op then "ok" else "inside-transaction"
     | .reset => if s.guard c op then "ok" else "inside-transaction"
     | .finalise false => "finalise-false"
     | .finalise true =>
-      if !s.dirtCover then "dirty-account-missing"
-      else if !(s.objs.all fun ao => ao.2.dirtyHasOrigin) then "dirty-slot-without-origin"
-      else if !(s.objs.all fun ao => !(ao.2.code != 0 && ao.2.dirtyCode && ao.2.code == c.tomb)) then "tombstone-code"
-      else if s.finaliseGuard c then "ok" else "s8-residue"
+      if !(s.objs.all fun ao => ao.2.dirtyHasOrigin) then "INVARIANT-BROKEN:dirty-slot-without-origin"
+      else if !(s.objs.all fun ao => !(ao.2.code != 0 && ao.2.dirtyCode && ao.2.code == c.tomb)) then "marker-code"
+      else if s.finaliseGuard c then "ok" else "s8-storage-residue"
     | _ => "ok"
   if pre != "ok" then pre
-  else if (s.step c op).2 == Out.panic && !s.legitPanic op then "journal-panic" else "ok"
+  else if (s.step c op).2 == Out.panic && !s.legitPanic op then "PANIC-NOT-SHARED" else "ok"
 
 def showOut : Out → String
   | .unit => "u"
